@@ -332,6 +332,10 @@ var hostileQueries = []string{"", "0", "00", "a", "x", "yy", "00a", "Ab", "q", "
 // run builds the root block, reifies it lazily and with preload and exercises
 // every node operation under recover() and a step budget.
 func (c hostileCase) run(viol func(sig, detail string), r *core.Run) {
+	if c.Family == "diamond" && len(c.Links) == 1 && c.Links[0] < len(c13Hows) {
+		c13Diamond(c.Payload, c13Hows[c.Links[0]], viol)
+		return
+	}
 	payloads, menu := c.menus()
 	if c.Payload >= len(payloads) {
 		viol("harness-bad-case", c.String())
@@ -659,4 +663,56 @@ func c13Chains(r *core.Run) {
 		}
 	}
 	r.Set("deep_chains", n)
+	// diamond chains: depth+2 distinct blocks, 2^depth paths. Length and the
+	// preloading reification are given k blocks and must not do 2^k work.
+	for _, depth := range []int{1, 2, 5, 12, 16} {
+		for hi := range c13Hows {
+			c := hostileCase{Family: "diamond", Payload: depth, Links: []int{hi}}
+			r.Evaluations.Add(1)
+			r.Distinct(c.String())
+			loads := c13Diamond(depth, c13Hows[hi], func(sig, detail string) { r.Violate(sig, detail, c) })
+			r.Transitions.Add(3)
+			r.States.Add(1)
+			r.Set(fmt.Sprintf("diamond_loads_depth_%d_%s", depth, c13Hows[hi]), loads)
+		}
+	}
+}
+
+var c13Hows = []string{"unixfs", "unixfs-preload"}
+
+func c13Diamond(depth int, how string, viol func(sig, detail string)) int {
+	s := store.New()
+	root, blocks := gen.DiamondChain(s, depth)
+	desc := fmt.Sprintf("diamond chain depth=%d (%d distinct blocks, 2^%d paths) via %s", depth, blocks, depth, how)
+	ls := lsFor(s)
+	rn, err := loadRoot(ls, root)
+	if err != nil {
+		viol("harness-bad-case", "diamond chain: "+err.Error())
+		return 0
+	}
+	before := len(s.Reads())
+	var nd datamodel.Node
+	if p, pv := core.Guard(func() { nd, err = openVia(how, ls, rn) }); p {
+		viol("panic diamond reify", fmt.Sprintf("%s: %v", desc, pv))
+		return 0
+	}
+	if err != nil || nd == nil {
+		return 0
+	}
+	var length int64
+	if p, pv := core.Guard(func() { length = nd.Length() }); p {
+		viol("panic diamond length", fmt.Sprintf("%s: %v", desc, pv))
+		return 0
+	}
+	loads := len(s.Reads()) - before
+	if length != 1<<uint(depth) {
+		viol("diamond-length", fmt.Sprintf("%s: Length() = %d, the expansion holds %d entries", desc, length, 1<<uint(depth)))
+	}
+	if loads > 8*blocks {
+		viol("step-budget diamond", fmt.Sprintf("%s: reification + Length() loaded %d blocks from a DAG of %d", desc, loads, blocks))
+	}
+	if p, pv := core.Guard(func() { iterateMap(nd, 100) }); p {
+		viol("panic diamond iterate", fmt.Sprintf("%s: %v", desc, pv))
+	}
+	return loads
 }
